@@ -1253,6 +1253,7 @@ impl CaseEngine for C26 {
             // live databases: (owner, decoded name) -> identity
             let mut live: BTreeMap<(String, String), u64> = BTreeMap::new();
             let admin_token = admin.token.clone().unwrap_or_default();
+            let bob_token = bob.token.clone().unwrap_or_default();
             let plain_names = ["x", "y", "x.bak", "moved", "b", "plain2"];
             let mut next_identity = 1u64;
             // file -> identity that holds it
@@ -1265,15 +1266,26 @@ impl CaseEngine for C26 {
                 let (src_owner, name) = if use_live { live.keys().nth(rng.usize(live.len())).cloned().unwrap_or_default() } else { ("alice".to_string(), names[rng.usize(names.len())].clone()) };
                 // the server admin moves and copies databases between owners (plain names: the admin is not the attacker)
                 let admin_op = use_live && (src_owner != "alice" || rng.chance(1, 4));
-                let dst_owner = if admin_op { ["alice", "bob"][rng.usize(2)].to_string() } else { "alice".to_string() };
+                // bob acts too: he copies databases alice shares with him into his own namespace, and adds memory databases
+                let bob_copy = use_live && !admin_op && src_owner == "alice" && rng.chance(1, 5);
+                let bob_add = !use_live && rng.chance(1, 8);
+                let (src_owner, name) = if bob_add { ("bob".to_string(), plain_names[rng.usize(plain_names.len())].to_string()) } else { (src_owner, name) };
+                let dst_owner = if admin_op { ["alice", "bob"][rng.usize(2)].to_string() } else if bob_copy || bob_add { "bob".to_string() } else { "alice".to_string() };
                 // a live (decoded) name is only usable in a URL when it needs no encoding
                 if use_live && name.chars().any(|c| !(c.is_ascii_alphanumeric() || "._-".contains(c))) {
                     continue;
                 }
-                let other = if admin_op { plain_names[rng.usize(plain_names.len())].to_string() } else { names[rng.usize(names.len())].clone() };
+                let other = if admin_op || bob_copy { plain_names[rng.usize(plain_names.len())].to_string() } else { names[rng.usize(names.len())].clone() };
                 let kind = kinds[(case + step as usize) % 3];
-                let pick = if admin_op { 100 + rng.below(5) } else if use_live { 3 + rng.below(10) } else { rng.below(10) };
+                let pick = if bob_copy { 200 } else if bob_add { 201 } else if admin_op { 100 + rng.below(5) } else if use_live { 3 + rng.below(10) } else { rng.below(10) };
+                if bob_copy {
+                    // alice shares the database with bob first (read role is enough to copy)
+                    let _ = server.raw("PUT", &format!("/api/v1/db/alice/{name}/user/bob/add?db_role=read"), &token, "");
+                    let _ = reader.take(&dir);
+                }
                 let (op, method, path, payload) = match pick {
+                    200 => ("copy", "POST", format!("/api/v1/db/alice/{name}/copy?new_db={other}"), ""),
+                    201 => ("add", "POST", format!("/api/v1/db/bob/{name}/add?db_type=memory"), ""),
                     100 | 101 => ("admin_rename", "POST", format!("/api/v1/admin/db/{src_owner}/{name}/rename?new_owner={dst_owner}&new_db={other}"), ""),
                     102 => ("admin_copy", "POST", format!("/api/v1/admin/db/{src_owner}/{name}/copy?new_owner={dst_owner}&new_db={other}"), ""),
                     103 => ("admin_exec_mut", "POST", format!("/api/v1/admin/db/{src_owner}/{name}/exec_mut"), body.as_str()),
@@ -1296,7 +1308,7 @@ impl CaseEngine for C26 {
                 };
                 progress(&format!("{op} name={name:?} step={step}"));
                 rep.eval();
-                let (status, _text) = server.raw(method, &path, if admin_op { &admin_token } else { &token }, payload)?;
+                let (status, _text) = server.raw(method, &path, if admin_op { &admin_token } else if bob_copy || bob_add { &bob_token } else { &token }, payload)?;
                 let success = (200..300).contains(&status);
                 let dname = percent_decode(&name);
                 let dother = percent_decode(&other);
@@ -1307,17 +1319,21 @@ impl CaseEngine for C26 {
                 let this = live.get(&(src_owner.clone(), dname.clone())).copied();
                 let mut acting: Vec<u64> = this.into_iter().collect();
                 let mut created: Option<u64> = None;
+                // the target (owner, name) was a live database already: the server must answer "db exists", not succeed
+                let mut taken = false;
                 if success {
                     match op {
                         "add" => {
                             created = Some(next_identity);
-                            live.insert(("alice".to_string(), dname.clone()), next_identity);
+                            taken = live.contains_key(&(dst_owner.clone(), dname.clone()));
+                            live.insert((dst_owner.clone(), dname.clone()), next_identity);
                             next_identity += 1;
                             accepted.insert(dname.clone());
                             rep.count(&format!("names_accepted_{class}"));
                         }
                         "copy" | "admin_copy" => {
                             created = Some(next_identity);
+                            taken = live.contains_key(&(dst_owner.clone(), dother.clone()));
                             live.insert((dst_owner.clone(), dother.clone()), next_identity);
                             next_identity += 1;
                             accepted.insert(dother.clone());
@@ -1325,6 +1341,7 @@ impl CaseEngine for C26 {
                         }
                         "rename" | "admin_rename" => {
                             if dother != dname || dst_owner != src_owner {
+                                taken = live.contains_key(&(dst_owner.clone(), dother.clone()));
                                 if let Some(i) = live.remove(&(src_owner.clone(), dname.clone())) {
                                     live.insert((dst_owner.clone(), dother.clone()), i);
                                     accepted.insert(dother.clone());
@@ -1333,6 +1350,13 @@ impl CaseEngine for C26 {
                             rep.count(&format!("{op}_accepted"));
                         }
                         _ => {}
+                    }
+                }
+                if taken {
+                    let sig = "C26:name_of_a_live_database_was_accepted_again".to_string();
+                    if fired.insert(sig.clone()) {
+                        rep.violation(&sig, &format!("{op} with name {name:?} / new name {other:?} for owner {dst_owner} returned {status} although {dst_owner} already has a live database of that name: two databases now share one set of files"),
+                            json!({"engine":"c26","case":case,"seed":args.u64("seed",1),"tier":args.str("tier","quick"),"step":step,"op":op,"name":name,"other":other,"status":status}));
                     }
                 }
                 let transient = next_identity + 1_000_000;
